@@ -458,6 +458,8 @@ def run(ctx):
     rep.floor('R03.d', 7)
     rep.floor('R03.e', 4)
     tp.compact_typestate(rep, 'R03.f', prog, cg)
+    import thrift_pairs as tp_z
+    tp_z.zero_copy_keeps_prefix(rep, 'R03.z', prog, cg)
     tp.long_form_id_becomes_context(rep, 'R03.d', prog, cg)
     tp.compact_bool_element(rep, 'R03.c', prog, cg)
     return rep
